@@ -243,7 +243,10 @@ def build_call(I, pkg, doc, opid, method, path, params, content):
         by_loc["path"].sort(key=lambda p: order.index(p["name"]))
         ordered = by_loc["path"] + by_loc["query"] + by_loc["header"] + by_loc["cookie"]
         if len(ordered) != len(names):
-            raise Unsupported(f"signature of _get_kwargs has {len(names)} parameters, the document declares {len(ordered)}")
+            from pyvc.engine_b import Refuted
+            raise Refuted(f"_get_kwargs accepts {len(names)} parameters {names}, the document declares {len(ordered)}: "
+                          f"{[(p['name'], p['in']) for p in ordered]} -- a documented parameter cannot be passed (or an "
+                          f"undocumented one is demanded)")
         for pyname, p in zip(names, ordered):
             kind = _kind_of(p["schema"])
             if not p["required"] and I.branch_free():
